@@ -49,7 +49,7 @@ def main(tier, replay=None):
         design = None
     else:
         design = outage_model(wd, tier)
-        scenarios = T.fam_outage(rng, ms=JOIN_MS)
+        scenarios = T.fam_outage(rng, ms=JOIN_MS) + T.fam_overloaded(rng, ms=JOIN_MS)
         if tier == "thorough":
             for cfg in (T.CFG_F, T.CFG_L):
                 scenarios += T.fam_outage(rng, cfg=cfg, ms=JOIN_MS)
